@@ -202,6 +202,10 @@ def update_state(elasticTrialStrain, stateOld, dt, props, hardening_model):
     lb = eqpsOld
     trialMises = 2 * props[PROPS_MU] * np.tensordot(TensorMath.dev(elasticTrialStrain), N)
     ub = eqpsOld + (trialMises - hardening_model.compute_flow_stress(eqpsOld, eqpsOld, dt))/(3.0*props[PROPS_MU])
+    # Without hardening the root is this elastic-predictor bound itself, and round-off (e.g. in
+    # sqrt(3/2)) can leave the residual slightly negative there so that the root is not bracketed.
+    # The residual keeps growing beyond the bound, so pad the bracket a little.
+    ub = ub + 1e-8*(ub - lb)
     # Avoid the initial guess eqpsGuess = eqpsOld, because the power law rate sensitivity has an infinte slope
     # in this case.
     eqpsGuess = 0.5*(lb + ub)
